@@ -380,6 +380,8 @@ func CheckC11(c *Ctx) {
 			c.violate("codec-agreement/append-or-write", "helper.AppendOrWriteToCsvFile", "choice", aw.Decl.Pos(), "the choice between appending (existing, non-empty file) and writing header+rows (missing or empty file) has changed")
 		}
 	}
+	// whole numbers and booleans: written in the base and with the function the reader parses
+	c.integerCodec(get, set)
 	// JSON delimiters
 	c.jsonDelims(info)
 	// the written header and the written cells use the same positions
@@ -957,4 +959,59 @@ func containsBranch(n ast.Node) bool {
 		return !found
 	})
 	return found
+}
+
+// integerCodec: the writer formats a whole number with strconv.FormatInt/FormatUint of the
+// field's own 64-bit value in base 10 and a boolean with FormatBool, and the reader parses with
+// ParseInt/ParseUint in base 10 and ParseBool (terms over the SSA form of getReflectValue,
+// setReflectValue and the helpers they call). Any other strconv formatting call in the writer
+// (Itoa of a narrowed value, another base) does not round-trip the extremes.
+func (c *Ctx) integerCodec(get, set *load.FuncInfo) {
+	run := c.Run
+	if get == nil || set == nil {
+		return
+	}
+	w := c.callTerms(get, "strconv")
+	r := c.callTerms(set, "strconv")
+	has := func(list []string, pred func(string) bool) bool {
+		for _, t := range list {
+			if pred(t) {
+				return true
+			}
+		}
+		return false
+	}
+	type ob struct {
+		what string
+		ok   bool
+	}
+	obs := []ob{
+		{"the writer formats integers with strconv.FormatInt(value.Int(), 10)", has(w, func(t string) bool { return t == "strconv.FormatInt(method.Int(param#0), 10)" })},
+		{"the writer formats unsigned integers with strconv.FormatUint(value.Uint(), 10)", has(w, func(t string) bool { return t == "strconv.FormatUint(method.Uint(param#0), 10)" })},
+		{"the writer formats booleans with strconv.FormatBool(value.Bool())", has(w, func(t string) bool { return t == "strconv.FormatBool(method.Bool(param#0))" })},
+		{"the reader parses integers with strconv.ParseInt(text, 10, bits)", has(r, func(t string) bool {
+			return strings.HasPrefix(t, "strconv.ParseInt(param#") && strings.Contains(t, ", 10, ")
+		})},
+		{"the reader parses unsigned integers with strconv.ParseUint(text, 10, bits)", has(r, func(t string) bool {
+			return strings.HasPrefix(t, "strconv.ParseUint(param#") && strings.Contains(t, ", 10, ")
+		})},
+		{"the reader parses booleans with strconv.ParseBool(text)", has(r, func(t string) bool { return strings.HasPrefix(t, "strconv.ParseBool(param#") })},
+	}
+	for _, o := range obs {
+		run.Oblige(o.ok)
+		if !o.ok {
+			c.violate("codec-agreement/integer", "helper.getReflectValue/setReflectValue", short(o.what, 60), get.Decl.Pos(), "no longer true: "+o.what+" (writer calls: "+strings.Join(w, "; ")+"; reader calls: "+strings.Join(r, "; ")+"): extreme or large values do not read back as written")
+		}
+	}
+	// nothing else formats numbers in the writer
+	for _, t := range w {
+		known := strings.HasPrefix(t, "strconv.FormatInt(method.Int(param#0), 10)") || strings.HasPrefix(t, "strconv.FormatUint(method.Uint(param#0), 10)") ||
+			strings.HasPrefix(t, "strconv.FormatBool(") || strings.HasPrefix(t, "strconv.FormatFloat(")
+		run.Oblige(known)
+		if !known {
+			c.violate("codec-agreement/integer", "helper.getReflectValue", short(t, 60), get.Decl.Pos(), "the writer formats a value with "+t+": not the 64-bit base-10 form the reader parses")
+		}
+	}
+	run.Count("strconv_calls", len(w)+len(r))
+	run.Floor("strconv_calls", 8)
 }
